@@ -14,7 +14,7 @@ use crate::{
         self, BodyKind, BodyProg, ConnEnd, CustomHint, HandlerProg, KaCfg, Outcome, ReadProg,
         Scenario, SrvCfg,
     },
-    httpwire::{self, ConnOpt, Framing, ParsedResp, ReqSpec, RespFraming},
+    httpwire::{self, ConnOpt, ParsedResp, ReqSpec, RespFraming},
     runner::{self, explore, Report, RunCfg, Verdict},
     simnet::PeerOp,
     util,
@@ -47,6 +47,10 @@ const BODY_OPTS: BodyOpts = BodyOpts {
 };
 
 fn case_strategy() -> impl Strategy<Value = Case> {
+    case_strategy_with(70_000)
+}
+
+pub fn case_strategy_with(max_body: u32) -> impl Strategy<Value = Case> {
     (
         prop_oneof![6 => Just(KaCfg::Timeout(5000)), 1 => Just(KaCfg::Os), 1 => Just(KaCfg::Disabled)],
         prop_oneof![1 => Just(1u32), 1 => Just(512u32), 3 => Just(32_768u32), 1 => 2u32..5000],
@@ -59,7 +63,7 @@ fn case_strategy() -> impl Strategy<Value = Case> {
                     allow_close: true,
                     allow_http10: true,
                     allow_expect: true,
-                    max_body: 70_000,
+                    max_body,
                 }),
                 gen::handler_prog(BODY_OPTS, false),
                 gen::delay(5),
@@ -101,7 +105,7 @@ fn case_strategy() -> impl Strategy<Value = Case> {
 }
 
 /// Constrain the generated case to the property's (and the handlers' documented) domain.
-fn normalize(c: &mut Case) {
+pub fn normalize(c: &mut Case) {
     // the adjustments interact; two passes reach the fixpoint
     normalize_once(c);
     normalize_once(c);
@@ -223,7 +227,7 @@ fn http10_unframed(req: &ReqSpec, p: &HandlerProg) -> bool {
 }
 
 /// Known-finding classes of a single (request, program) pair.
-fn pair_known(cfg: &RunCfg, req: &ReqSpec, p: &HandlerProg) -> Option<&'static str> {
+pub fn pair_known(cfg: &RunCfg, req: &ReqSpec, p: &HandlerProg) -> Option<&'static str> {
     let has_bytes = match &p.resp.body.kind {
         BodyKind::Unit => false,
         BodyKind::Custom(CustomHint::None) => false,
@@ -250,25 +254,25 @@ fn heterogeneous(reqs: &[ReqSpec]) -> bool {
         || (reqs.len() > 1 && reqs.iter().any(closes))
 }
 
-struct Expected {
-    status: u16,
+pub struct Expected {
+    pub status: u16,
     /// None = not checked
-    body: Option<Vec<u8>>,
+    pub body: Option<Vec<u8>>,
     /// the message must not be complete on the wire / connection must terminate
-    must_terminate: bool,
+    pub must_terminate: bool,
     /// a complete message is acceptable even though the body errored (all declared bytes out)
-    may_complete: bool,
-    continues: u32,
-    conn_close_expected: bool,
-    conn_close_allowed_extra: bool,
-    handler_called: bool,
+    pub may_complete: bool,
+    pub continues: u32,
+    pub conn_close_expected: bool,
+    pub conn_close_allowed_extra: bool,
+    pub handler_called: bool,
 }
 
 fn produced_bytes(p: &BodyProg) -> Vec<u8> {
     p.all_bytes()
 }
 
-fn expected_for(case: &Case, i: usize, req_body: &[u8]) -> Expected {
+pub fn expected_for(case: &Case, i: usize, req_body: &[u8]) -> Expected {
     let req = &case.reqs[i];
     let p = &case.progs[i];
     let rejected = case.expect_reject && req.expect;
@@ -371,7 +375,7 @@ fn expected_for(case: &Case, i: usize, req_body: &[u8]) -> Expected {
     e
 }
 
-fn build_scenario(case: &Case, only: Option<usize>, finding_halfclose: bool) -> (Scenario, Vec<usize>) {
+pub fn build_scenario(case: &Case, only: Option<usize>, finding_halfclose: bool) -> (Scenario, Vec<usize>) {
     // returns the scenario and, per request, the offset where its bytes start
     let idxs: Vec<usize> = match only {
         Some(i) => vec![i],
@@ -454,9 +458,20 @@ fn framing_headers(r: &ParsedResp) -> Vec<(String, String)> {
     v
 }
 
-fn check_response(i: usize, req: &ReqSpec, e: &Expected, r: &ParsedResp, closed: bool) -> Result<(), String> {
-    if r.status != e.status {
+pub fn check_response(i: usize, req: &ReqSpec, e: &Expected, r: &ParsedResp, closed: bool) -> Result<(), String> {
+    // only a prefix of the head made it to the wire (connection torn down under partial writes):
+    // nothing of the head can be judged, only whether the message was allowed to be incomplete
+    let head_cut = !r.complete && r.status == 0;
+    if !head_cut && r.status != e.status {
         return Err(format!("response {i}: status {} but the handler program produced {}", r.status, e.status));
+    }
+    if head_cut {
+        if e.must_terminate || e.may_complete {
+            return Ok(());
+        }
+        return Err(format!(
+            "response {i}: only a prefix of the response head is on the wire although its body program completed"
+        ));
     }
     if r.version != req.version {
         return Err(format!(
@@ -528,6 +543,31 @@ fn check_response(i: usize, req: &ReqSpec, e: &Expected, r: &ParsedResp, closed:
 }
 
 pub fn run_case(cfg: &RunCfg, case_in: &Case, strict: bool) -> Verdict {
+    run_case_ext(cfg, case_in, strict, &|_| {}, true).0
+}
+
+/// The C02 oracle with a hook that may alter the scenario before it runs (socket behaviour,
+/// peer script); returns the outcome too so that other properties can add their own checks.
+pub fn run_case_ext(
+    cfg: &RunCfg,
+    case_in: &Case,
+    strict: bool,
+    alter: &dyn Fn(&mut Scenario),
+    solo: bool,
+) -> (Verdict, Option<Outcome>) {
+    let mut out_slot: Option<Outcome> = None;
+    let v = run_case_inner(cfg, case_in, strict, alter, solo, &mut out_slot);
+    (v, out_slot)
+}
+
+fn run_case_inner(
+    cfg: &RunCfg,
+    case_in: &Case,
+    strict: bool,
+    alter: &dyn Fn(&mut Scenario),
+    solo: bool,
+    out_slot: &mut Option<Outcome>,
+) -> Verdict {
     let mut case = case_in.clone();
     let mut v = Verdict::ok();
     let halfclose = !strict && cfg.kf.active("C01", "half-close-discards-buffered-body");
@@ -558,8 +598,10 @@ pub fn run_case(cfg: &RunCfg, case_in: &Case, strict: bool) -> Verdict {
     }
     let case = &case;
     let n = case.reqs.len();
-    let (sc, _starts) = build_scenario(case, None, halfclose);
-    let out = h1engine::run(sc);
+    let (mut sc, _starts) = build_scenario(case, None, halfclose);
+    alter(&mut sc);
+    *out_slot = Some(h1engine::run(sc));
+    let out = out_slot.as_ref().unwrap();
 
     // ---- classification / non-triviality
     let non_fixed = case.progs.iter().zip(&case.reqs).any(|(p, r)| {
@@ -725,7 +767,7 @@ pub fn run_case(cfg: &RunCfg, case_in: &Case, strict: bool) -> Verdict {
     }
 
     // ---- independence: the same request alone on a fresh connection
-    if n >= 2 && terminated_at.is_none() {
+    if solo && n >= 2 && terminated_at.is_none() {
         let i = util::pick_idx(case.solo_sel, n);
         if i < resps.len() && resps[i].complete {
             let (sc, _) = build_scenario(case, Some(i), halfclose);
